@@ -5,6 +5,7 @@ package main
 // Lean model (CAR parser + IndexAll.build + compact-index model) and checked against the generator's ground truth.
 
 import (
+	"bytes"
 	"context"
 	"encoding/hex"
 	"fmt"
@@ -13,6 +14,7 @@ import (
 	"os"
 	"path/filepath"
 	"strings"
+	"sync"
 	"testing"
 
 	"github.com/cespare/xxhash/v2"
@@ -211,6 +213,59 @@ func TestVerifC01(t *testing.T) {
 				op(line, got, got == want)
 				if got != want {
 					viol(fmt.Sprintf("first signature does not resolve to its transaction / is not reported existing: got %q want %q", got, want), "C01:sig-wrong")
+				}
+			}
+		}
+		// the same object fetches with several requests in flight at once (the server answers requests concurrently):
+		// every fetch must still return exactly the archived object
+		{
+			eps := []*Epoch{le.Ep}
+			names := []string{"local"}
+			if remoteOK {
+				eps = append(eps, remote.Ep)
+				names = append(names, "readerat")
+			}
+			for ei, ep := range eps {
+				objs := ge.Objs
+				if len(objs) > 1500 {
+					objs = objs[:1500]
+				}
+				var mu sync.Mutex
+				firstBad := ""
+				var wg sync.WaitGroup
+				for g := 0; g < 8; g++ {
+					wg.Add(1)
+					go func(g int) {
+						defer wg.Done()
+						for round := 0; round < 2; round++ {
+							for i := range objs {
+								ob := objs[(i*7+g*131+round)%len(objs)]
+								r := zz.Guard(func() string {
+									data, err := ep.GetNodeByCid(ctx, ob.Cid)
+									if err != nil {
+										return "get-" + classifyErr(err) + ": " + err.Error()
+									}
+									if !bytes.Equal(data, ob.Data) {
+										return fmt.Sprintf("other bytes (%d instead of %d)", len(data), len(ob.Data))
+									}
+									return ""
+								})
+								if r != "" {
+									mu.Lock()
+									if firstBad == "" {
+										firstBad = fmt.Sprintf("cid %s: %s", ob.Cid, r)
+									}
+									mu.Unlock()
+									return
+								}
+							}
+						}
+					}(g)
+				}
+				wg.Wait()
+				s.Count("concurrent-fetch-phases")
+				if firstBad != "" {
+					viol("with 8 requests in flight an object fetched by CID ("+names[ei]+" access path) is not the archived object: "+firstBad, "C01:object-wrong:concurrent:"+names[ei])
 				}
 			}
 		}
